@@ -335,6 +335,25 @@ def evEnd (g : Cfg) (s : S) : S :=
   let s := if s.rearm then resetPollerEvent g { s with rearm := false } else s
   if s.evErr then (if s.closed then { s with evErr := false } else flipWE { s with evErr := false }) else s
 
+/-! The tail of an event consists of three separately scheduled actions of the poller goroutine; other
+goroutines may run between them. `evEnd` is their composition (`evEnd_eq` in Lemmas/ConnEvEnd.lean); the
+poller performs them in this order, hence the guards. -/
+
+/-- the tail of the connected callback: `c.onConnected = nil; c.resetRead()` under the mutex -/
+def evConnEnd (g : Cfg) (s : S) : S :=
+  if s.hung then s
+  else if s.connEv then cResetRead g { s with connecting := false, connEv := false } else s
+
+/-- `ResetPollerEvent` after the read part (or after a write-only event), ONESHOT -/
+def evRearm (g : Cfg) (s : S) : S :=
+  if s.hung || s.connEv then s
+  else if s.rearm then resetPollerEvent g { s with rearm := false } else s
+
+/-- `closeWithError(io.EOF)` for an event that carried an error part (its locked part) -/
+def evErrClose (s : S) : S :=
+  if s.hung || s.connEv || s.rearm then s
+  else if s.evErr then (if s.closed then { s with evErr := false } else flipWE { s with evErr := false }) else s
+
 /-- Close / CloseWithError: the locked part of closeWithError -/
 def flipClosed (s : S) : S := if s.hung || s.closed then s else flipWE s
 
@@ -458,6 +477,9 @@ inductive Op
   | registerDial
   | evTake (out inn err : Bool) (ks : List KAns)
   | evEnd
+  | evConnEnd
+  | evRearm
+  | evErrClose
   | flipClosed
   | teardown
   | setWriteDeadline (zero : Bool)
@@ -472,6 +494,9 @@ def step (g : Cfg) (s : S) : Op → S
   | .registerDial => registerDialOp g s
   | .evTake o i e ks => evTakeOp g s o i e ks
   | .evEnd => evEnd g s
+  | .evConnEnd => evConnEnd g s
+  | .evRearm => evRearm g s
+  | .evErrClose => evErrClose s
   | .flipClosed => flipClosed s
   | .teardown => teardown s
   | .setWriteDeadline z => setWriteDeadline s z
